@@ -858,7 +858,12 @@ func c13k(c *Ctx) {
 		sel, ok := ast.Unparen(e).(*ast.SelectorExpr)
 		return ok && (sel.Sel.Name == "EOF" || sel.Sel.Name == "ErrUnexpectedEOF")
 	}
-	eof := g.EdgesImplying(func(a Atom) bool { rel, ok := cmpRel(a, isErr, isEOF); return ok && rel == relEQ })
+	eof := g.EdgesImplying(func(a Atom) bool {
+		if rel, ok := cmpRel(a, isErr, isEOF); ok && rel == relEQ {
+			return true
+		}
+		return a.Val && isSentinelTest(info, a.E, isErr, isEOF)
+	})
 	c.guardSuccess(f, "file read to EOF", eof, okRets, "the comparison can report equality without having read the existing file to its end: a longer existing object would be accepted as identical to its prefix")
 	isLenData := func(e ast.Expr) bool {
 		call, ok := ast.Unparen(e).(*ast.CallExpr)
